@@ -108,6 +108,21 @@ def script_fetchers(S):
     S.settle()
 
 
+def script_http_refused(S):
+    """only exchanges that are NOT a valid upgrade (C13), each on its own connection, ended by the client or by the daemon"""
+    good = wire.ws_handshake()
+    reqs = [b"GET /nope HTTP/1.1\r\nHost: h\r\n\r\n", b"POST /api/jet/ HTTP/1.1\r\nContent-Length: 2\r\n\r\nhi", good[:30], good[:-2], b"garbage\r\n\r\n",
+            good.replace(b"Version: 13", b"Version: 8"), good.replace(b"Protocol: jet", b"Protocol: x"), good.replace(b"Upgrade: websocket", b"Upgrade: h2c"),
+            b"GET /api/jet/ HTTP/1.1\r\nX: " + b"y" * 3000 + b"\r\n\r\n"]
+    for i, d in enumerate(reqs):
+        c = S.connect("h%d" % i, "ws")
+        c.ledger, c.track_input, c.may_close = False, False, True
+        S.send_bytes(c, d)
+        S.settle()
+        S.end(c, "eof" if i % 2 == 0 else "rst")
+        S.settle()
+
+
 def script_http(S):
     good = wire.ws_handshake()
     for i, d in enumerate([b"GET /nope HTTP/1.1\r\n\r\n", b"GET /api/jet/ HTTP/1.0\r\nUpgrade: websocket\r\nConnection: Upgrade\r\n\r\n", good[:30], good[:-2],
@@ -142,6 +157,7 @@ SCRIPTS = {
     "teardown-ws-raw": lambda S: script_teardown(S, "ws", "raw"),
     "fetchers": script_fetchers,
     "http": script_http,
+    "http-refused": script_http_refused,
 }
 
 
